@@ -67,9 +67,10 @@ EXECUTABLE = [o for o in range(256) if o not in si.DISABLED and o not in si.ALWA
 
 
 def runs(tier, seed):
+    # measured on one core: harness ~1000 cases/s (ASan), reference ~1000 cases/s without and ~100/s with signatures
     if tier == "thorough":
-        return [Run("script", cases=1500000, params={"sig": 40}, timeout=3000)]
-    return [Run("script", cases=100000, params={"sig": 70}, timeout=900)]
+        return [Run("script", cases=1000000, params={"sig": 40}, timeout=7200)]
+    return [Run("script", cases=50000, params={"sig": 70}, timeout=1800)]
 
 
 def _stack_digest(st):
